@@ -12,6 +12,7 @@ mod c13;
 mod reg;
 mod c14;
 mod c15;
+mod c16;
 mod c17;
 mod c19;
 mod c20;
@@ -77,6 +78,7 @@ fn main() {
     "C10" => fcprops::run("C10", tier, seed),
     "C11" => fcprops::run("C11", tier, seed),
     "C12" => c12::run(tier, seed),
+    "C16" => c16::run(tier, seed, args.iter().any(|a| a == "--sanitizer-slice")),
     "C13" => c13::run(tier, seed),
     "C14" => c14::run(tier, seed),
     "C15" => c15::run_c15(tier, seed),
